@@ -292,6 +292,28 @@ def K9():
     return k1 == k2, "%r -> %r (type %r)" % (k1, k2, getattr(l1.blocks[0], "entry_type", None))
 
 
+def _names_stack(text):
+    bp = _bp()
+    from bibtexparser.middlewares import SeparateCoAuthors, SplitNameParts, MergeNameParts, MergeCoAuthors
+    l1 = bp.parse_string(text, append_middleware=[SeparateCoAuthors(), SplitNameParts()])
+    w = bp.write_string(l1, prepend_middleware=[MergeNameParts(), MergeCoAuthors()])
+    l2 = bp.parse_string(w, append_middleware=[SeparateCoAuthors(), SplitNameParts()])
+    k1 = [type(b).__name__ for b in l1.blocks]
+    k2 = [type(b).__name__ for b in l2.blocks]
+    same = k1 == k2 and all(getattr(a, "fields", None) == getattr(b, "fields", None) for a, b in zip(l1.blocks, l2.blocks))
+    return same, "%r -> written %r -> %r" % (k1, w[:60], k2)
+
+
+def K10():
+    """C14: a name word with a double backslash before a brace does not survive write + re-parse of the names stack"""
+    return _names_stack("@article{k, author = {{\\\\} \\\\{}}}")
+
+
+def K11():
+    """C14: merging last-name-first can create a block-start pattern (`Z @a~{x}` -> `@a {x}, Z`)"""
+    return _names_stack("@article{k, author = {Z @a~{x}}}")
+
+
 def F16():
     """C18: converter exception with an empty message swallowed"""
     import witnesses_c18
@@ -327,7 +349,7 @@ def F17():
     return not shared, "output metadata list is the input's / the middleware's own list: %r" % shared
 
 
-ALL = [F1, F2, F3, F4, F5, F6, F7, F8, F9, F10, F11, F12, F13, F14, F15, F16, F17, F18, K1, K2, K3, K4, K5, K6, K7, K8, K9]
+ALL = [F1, F2, F3, F4, F5, F6, F7, F8, F9, F10, F11, F12, F13, F14, F15, F16, F17, F18, K1, K2, K3, K4, K5, K6, K7, K8, K9, K10, K11]
 
 if __name__ == "__main__":
     import bibtexparser
